@@ -95,6 +95,8 @@ HARNESSES += [
     # drain
     H('c_drain', 'C01 C03 C04 C09 C10 C11 C20', unwind=lambda n: n + 4, ns_q=[0, 1, 3, 4]),
     H('c_drain_leak', 'C10 C11', unwind=lambda n: n + 4),
+    H('c_drain_plain', 'C01 C09 C10 C11', unwind=lambda n: n + 4),
+    H('c_ops_plain', 'C01 C02 C11'),
     W('c_drain', 'C05', ns_q=[1, 2], ns_t=[1, 2, 3]),
     # destructor precondition (C05) / user-code precondition (C06) variants
     W('c_truncate_back', 'C05'), W('c_truncate_front', 'C05'), W('c_clear', 'C05'), W('c_drop_buffer', 'C05'),
